@@ -544,7 +544,6 @@ pub fn check_main(engine: &dyn Engine, a: CheckArgs) -> i32 {
             match live[i].proc.try_wait() {
                 Ok(Some(status)) => {
                     let c = live.swap_remove(i);
-                    let _ = std::fs::remove_file(&c.hb);
                     let killed_for_hang = found.iter().any(|f| f.chunk == c.chunk && f.violation.site == "run-never-finished");
                     let lines = c.reader.join().unwrap_or_default();
                     let mut got_summary = false;
@@ -569,7 +568,33 @@ pub fn check_main(engine: &dyn Engine, a: CheckArgs) -> i32 {
                             }
                         }
                     }
-                    if (!status.success() || !got_summary) && !killed_for_hang {
+                    let hb_now = std::fs::read_to_string(&c.hb).unwrap_or_default();
+                    if (!status.success() || !got_summary) && !killed_for_hang && !hb_now.trim().is_empty() && status.code().is_none() {
+                        // the worker was killed by a signal (abort, segfault, OOM) while executing a known run: that run
+                        // made the process die, which no property allows
+                        let run: u64 = hb_now.trim().parse().unwrap_or(0);
+                        let mut pc = Command::new(&exe);
+                        pc.arg("plan").arg(&a.focus).arg("--seed").arg(a.seed.to_string()).arg("--run").arg(run.to_string()).arg("--tier").arg(a.tier.name());
+                        for (k, v) in &c.env {
+                            pc.env(k, v);
+                        }
+                        let plan: Value = pc.output().ok().and_then(|o| serde_json::from_slice(&o.stdout).ok()).unwrap_or(Value::Null);
+                        found.push(FoundViolation {
+                            violation: Violation {
+                                property: a.focus.clone(),
+                                clause: format!("{}.abort", a.focus),
+                                site: "worker-process-died".into(),
+                                detail: format!("the worker process executing run {run} was terminated abnormally ({status}): abort, stack overflow or out-of-memory inside the run"),
+                            },
+                            run,
+                            chunk: c.chunk,
+                            plan,
+                            minimised_plan: None,
+                            minimise_steps: 0,
+                            env: c.env.iter().cloned().collect(),
+                        });
+                        stop_launching = true;
+                    } else if (!status.success() || !got_summary) && !killed_for_hang {
                         harness_errors.push(format!(
                             "worker for chunk {} ended abnormally ({status}); runs {}..{}",
                             c.chunk,
@@ -577,6 +602,7 @@ pub fn check_main(engine: &dyn Engine, a: CheckArgs) -> i32 {
                             (c.chunk + 1) * budget.chunk
                         ));
                     }
+                    let _ = std::fs::remove_file(&c.hb);
                     progressed = true;
                 },
                 Ok(None) => i += 1,
